@@ -17,6 +17,7 @@ claimed = {
  "C07": ("W-proxy", "every seed is run under 4 transport segmentations (whole frames, random cuts, 1-7 byte pieces, single bytes; different latencies and schedules) of the same workload on fixed-protocol and Auto listeners (bolt, boltv2, HTTP/1); a scheduling-independent digest of what every upstream and client saw must be identical, and the C01 oracle (each request forwarded exactly once, byte-identical) holds in each", "dubbo, dubbo-thrift, tars and HTTP/2 peers are not built yet in this snapshot", "4 C07"),
  "C08": ("W-proxy", "malformed-input clients (single-field corruptions of valid frames: every length field <- 0,1,2,3,max,truth+-1,2^31; truncation (+FIN); random bytes; flipped bytes; inserted bytes; HTTP/1 absurd Content-Length / bad chunk size / header without colon) and upstreams answering with garbage or corrupted replies, next to ordinary clients whose requests must still each get exactly one outcome in bounded time with no cross-talk; the process must survive (a Go panic/fatal error with a MOSN frame on the stack is a violation), no allocation > 64 MiB for announced-but-unarrived bytes by MOSN's own decoders", "bolt, boltv2, HTTP/1 and the Auto matcher only in this snapshot; HPACK / HTTP/2 frames not yet; a step that never quiesces is reported as infrastructure failure (exit 2), not as a violation", "4 C08"),
  "C14": ("W-proxy", "chains of 1-6 scripted stream filters (registered through api.RegisterStream; every receive phase, send filters) whose per-request verdicts (continue, stop, terminate, hijack, hijack with body, direct response, re-match, re-choose) travel in a request header; the recorded call log is compared with a reference model of the statement (order, once per pass, resume at the requesting filter), an answered or terminated request must never appear at any upstream, an answered request gets exactly that reply, and every response passes the send filters in order; all under the upstream faults and schedules of the C03 arm", "bolt, boltv2, HTTP/1; a response discarded in favour of a retry may pass the send filters too (k complete passes, k <= 1 + answered attempts)", "4 C14"),
+ "C17": ("W-proxy", "generated route configurations (request/response header add with append true/false and remove at route, virtual-host and router level; prefix / regex path rewrite and host rewrite towards HTTP/1 upstreams; redirect with scheme/host/path/code; direct response with status/body; retry policy with retry_on, num_retries, status_codes, per-try timeout; timeout sources: protocol-supplied, x-mosn-global-timeout header, route, default) over bolt, boltv2 and HTTP/1; the per-attempt upstream log and the single downstream reply are compared with a small reference model written from the statement, under scripted per-attempt upstream outcomes", "attempts that fail to connect are not modelled (every host accepts in this arm); with a per-try timeout configured the retry-condition clause is not judged (any attempt may legitimately time out in the simulated network); the fresh-host clause is judged only for the HTTP/1 pool with request-round-robin and no per-try timeout; attempts <= 1+max(3,num_retries) as the property's anchor defines the budget", "4 C17"),
 }
 
 na = {
@@ -25,7 +26,7 @@ na = {
  "C15": "subset selection and both builders are pure functions of (host metadata, selectors, fallback policy, criteria); no schedule, time, fault or history in the statement",
  "C19": "load/dump round trip is a pure function of the configuration; no time, I/O fault, concurrency or history in the statement",
 }
-pending = ["C11","C12","C17","C18","C20"]
+pending = ["C11","C12","C18","C20"]
 
 def main():
     checks=[]
